@@ -277,6 +277,7 @@ func vhC10Persistence() {
 	s.ReduceMemoryUsage = vBool("reduceMemory")
 	handlerClose := vChoose("handlerCloseAt", nreq+1) // == nreq: never
 	timeoutAt := vChoose("handlerTimeoutErrorAt", nreq+1) // == nreq: never
+	timeoutWithClose := timeoutAt < nreq && vBool("timeoutResponseSaysClose")
 	type seen struct {
 		http10, reqClose, reqKeepAlive bool
 	}
@@ -294,7 +295,15 @@ func vhC10Persistence() {
 		if len(reqs)-1 == timeoutAt {
 			// the handler gives up on this request: the server answers with
 			// the timeout response and goes on with a fresh context
-			ctx.TimeoutError("late")
+			if timeoutWithClose {
+				var tr Response
+				tr.SetStatusCode(StatusGatewayTimeout)
+				tr.SetBodyString("late")
+				tr.SetConnectionClose()
+				ctx.TimeoutErrorWithResponse(&tr)
+			} else {
+				ctx.TimeoutError("late")
+			}
 		}
 	}
 	s.ServeConn(c)
@@ -311,7 +320,7 @@ func vhC10Persistence() {
 			good = false
 		}
 		q := reqs[i]
-		must := q.reqClose || (q.http10 && !q.reqKeepAlive) || s.DisableKeepalive || (s.MaxRequestsPerConn > 0 && i+1 >= s.MaxRequestsPerConn) || (i == handlerClose && i != timeoutAt)
+		must := q.reqClose || (q.http10 && !q.reqKeepAlive) || s.DisableKeepalive || (s.MaxRequestsPerConn > 0 && i+1 >= s.MaxRequestsPerConn) || (i == handlerClose && i != timeoutAt) || (i == timeoutAt && timeoutWithClose)
 		if must && !r.close {
 			mustClose = false
 		}
